@@ -61,5 +61,15 @@ def run(op, a):
         h, txs = a[0]
         b1 = make_block(h, [tx_from_val(t) for t in txs])
         b2 = make_block(h, [])
-        return [b1.GetHash(), header_from_val(h).GetHash(), b2.GetHash()]
+        res = [b1.GetHash(), header_from_val(h).GetHash(), b2.GetHash()]
+        # equality and hash() of blocks follow their field values, also once the identifiers have been asked
+        # for (the block hash covers the header only, so it says nothing about the transactions): the twin
+        # with the same header and other transactions is a different block, the twin with equal fields is
+        # equal and hashes alike (seeded change C02-17: == decided by comparing cached GetHash() values)
+        b3 = make_block(h, [tx_from_val(t) for t in txs])
+        b3.GetHash()
+        differ = len(txs) > 0
+        if (b1 == b2) == differ or (b1 != b2) != differ or (b2 == b1) == differ or not (b1 == b3) or b1 != b3 or hash(b1) != hash(b3):
+            res[0] = b'block-equality-does-not-follow-the-field-values'
+        return res
     raise ValueError('op')
